@@ -46,6 +46,7 @@ func runOn(v *vm.VM, prog *vm.Program, m Mode, e *Env, lg *Log) Got {
 	val := Abs(out)
 	g.V = &val
 	g.GoType = fmt.Sprintf("%T", out)
+	g.raw = out
 	return g
 }
 
